@@ -181,7 +181,7 @@ func retryAfterFault(s *ctlsim.Sim, infos []ctlsim.StepInfo, f C12Fault, active 
 
 func execC12(c C12Case) *Failure {
 	st := getStats("C12")
-	triggered, triggeredOnChange := 0, 0
+	triggered, triggeredOnChange, cmdFaults, faultsSeen := 0, 0, 0, 0
 	kindsHit := map[string]bool{}
 	steps := 0
 	var active *poison
@@ -217,7 +217,15 @@ func execC12(c C12Case) *Failure {
 		if failed {
 			return failf("C12:retry-keeps-failing", "batch %d: the update still fails after the fault was removed and %d retries: %v", batch, attempts, infos[len(infos)-1].Err)
 		}
-		if attempts == 0 && batch != len(c.Hist.Batches)-1 {
+		_, _, _, fh := s.Hap.Counters()
+		cmdFaultHit := curFault.Kind == "cmd" && fh > faultsSeen
+		faultsSeen = fh
+		if cmdFaultHit {
+			// a faulted runtime command must end in a reload (or in a reported failure and a retry)
+			cmdFaults++
+			kindsHit["cmd"] = true
+		}
+		if attempts == 0 && !cmdFaultHit && batch != len(c.Hist.Batches)-1 {
 			return nil
 		}
 		// after the (successful) retry everything must have converged
@@ -251,6 +259,7 @@ func execC12(c C12Case) *Failure {
 	st.Case(c, triggeredOnChange > 0, labels...)
 	st.Count("reconcile_steps", steps)
 	st.Count("faults_triggered", triggered)
+	st.Count("command_faults_hit", cmdFaults)
 	st.Count("faults_triggered_on_real_change", triggeredOnChange)
 	return f
 }
@@ -259,4 +268,187 @@ func init() { registerReplay("C12", execC12) }
 
 func TestC12(t *testing.T) {
 	runProperty(t, "C12", genC12, execC12)
+}
+
+// ---------- enumeration of the failure points of one update ----------
+
+// C12EnumCase: a short fault-free history; every failure point of its LAST batch is then tried in turn.
+type C12EnumCase struct {
+	Hist HistCase `json:"hist"`
+}
+
+func genC12Enum(t *rapid.T) C12EnumCase {
+	p := defaultProfile()
+	p.Classes = false
+	p.MissingRefs = true
+	p.Avoid = []avoidRule{{Sig: sigDefBackJoins, Pred: gainsDefaultBackend}}
+	params := ctlsim.Params{Shards: rapid.SampledFrom([]int{0, 3, 3}).Draw(t, "shards")}
+	h := genHistory(t, p, params, c12Kinds, 3, 3)
+	for i := range h.Split {
+		h.Split[i] = -1
+	}
+	return C12EnumCase{Hist: h}
+}
+
+func fileStamps(s *ctlsim.Sim) map[string]int64 {
+	out := map[string]int64{}
+	_ = filepath.Walk(s.CfgDir(), func(path string, info os.FileInfo, err error) error {
+		if err != nil || info.IsDir() {
+			return nil
+		}
+		rel, _ := filepath.Rel(s.Dir, path)
+		out[rel] = info.ModTime().UnixNano()
+		return nil
+	})
+	return out
+}
+
+// c12Prefix starts a controller and runs every batch but the last one, fault free.
+func c12Prefix(h HistCase) (*ctlsim.Sim, error) {
+	s, err := ctlsim.New(h.Params)
+	if err != nil {
+		panic(err)
+	}
+	steps, err := s.Bootstrap(h.Init)
+	if err != nil {
+		panic(fmt.Sprintf("bootstrap: %v", err))
+	}
+	if e := stepErrors(steps); e != nil {
+		s.Close()
+		return nil, e
+	}
+	for i := 0; i < len(h.Batches)-1; i++ {
+		if err := s.Apply(h.Batches[i]); err != nil {
+			panic(err)
+		}
+		if e := stepErrors(s.Reconcile()); e != nil {
+			s.Close()
+			return nil, e
+		}
+	}
+	return s, nil
+}
+
+func execC12Enum(c C12EnumCase) *Failure {
+	st := getStats("C12")
+	h := c.Hist
+	if len(h.Batches) == 0 {
+		st.Case(c, false, "enumerated")
+		return nil
+	}
+	last := h.Batches[len(h.Batches)-1]
+	// pass 1: which files does the last update write, how many commands and reloads does it need
+	s, err := c12Prefix(h)
+	if err != nil {
+		return failf("C12:update-error", "fault-free prefix failed: %v", err)
+	}
+	before := fileStamps(s)
+	if err := s.Apply(last); err != nil {
+		panic(err)
+	}
+	infos := s.Reconcile()
+	if e := stepErrors(infos); e != nil {
+		s.Close()
+		return failf("C12:update-error", "fault-free update failed: %v", e)
+	}
+	after := fileStamps(s)
+	cmds, reloads := 0, 0
+	for _, in := range infos {
+		cmds += in.Cmds
+		reloads += in.Reloads
+	}
+	s.Close()
+	type point struct {
+		kind, file string
+		ord        int
+		mode       string
+	}
+	var points []point
+	var written []string
+	for f, t := range after {
+		if strings.HasSuffix(f, ".lua") || strings.Contains(f, "spoe-") {
+			continue
+		}
+		if bt, ok := before[f]; !ok || bt != t {
+			written = append(written, f)
+		}
+	}
+	sort.Strings(written)
+	for _, f := range written {
+		points = append(points, point{kind: "file", file: f})
+	}
+	for i := 1; i <= cmds && i <= 6; i++ {
+		points = append(points, point{kind: "cmd", ord: i, mode: []string{simhap.FaultRefuse, simhap.FaultDrop, simhap.FaultDropApp, simhap.FaultNotOK}[i%4]})
+	}
+	if reloads > 0 {
+		points = append(points, point{kind: "reload", ord: 1, mode: simhap.FaultFail})
+	}
+	failedUpdates := 0
+	for pi, pt := range points {
+		s, err := c12Prefix(h)
+		if err != nil {
+			return failf("C12:update-error", "fault-free prefix failed: %v", err)
+		}
+		fault := C12Fault{Kind: pt.kind, Pick: pt.ord, Mode: pt.mode, Repeat: pi % 2}
+		var active *poison
+		switch pt.kind {
+		case "file":
+			active = poisonFile(s, pt.file)
+		default:
+			injectFault(s, fault, &active)
+		}
+		if err := s.Apply(last); err != nil {
+			panic(err)
+		}
+		infos := s.Reconcile()
+		infos, attempts, failed := retryAfterFault(s, infos, fault, &active)
+		what := fmt.Sprintf("failure point %d/%d of the last update (%s %s%d %s, persisting for %d retries), %d retries", pi+1, len(points), pt.kind, pt.file, pt.ord, pt.mode, fault.Repeat, attempts)
+		var f *Failure
+		switch {
+		case failed:
+			f = failf("C12:retry-keeps-failing", "%s: the update still fails after the fault was removed: %v", what, infos[len(infos)-1].Err)
+		default:
+			if attempts > 0 {
+				failedUpdates++
+			} else if pt.kind == "file" {
+				// the file was written by the fault-free run, so the write must have failed and must have been reported
+				f = failf("C12:failure-not-reported:file", "%s: writing %s was made to fail but the update reported success", what, pt.file)
+			}
+			if f == nil {
+				if diff := runningVsFiles(s, false); len(diff) > 0 {
+					f = failf("C12:running-not-converged:"+pt.kind, "%s: the running HAProxy differs from the files:\n  %s", what, strings.Join(diff, "\n  "))
+				}
+			}
+			if f == nil {
+				if ff, _ := compareWithFresh(s, "C12"); ff != nil {
+					ff.Signature = "C12:files-not-converged:" + pt.kind
+					ff.Msg = what + ": " + ff.Msg
+					f = ff
+				}
+			}
+			if f == nil {
+				if ff := c05Compare(s); ff != nil {
+					ff.Signature = "C12:files-not-exact:" + pt.kind + ":" + strings.TrimPrefix(ff.Signature, "C05:")
+					ff.Msg = what + ": " + ff.Msg
+					f = ff
+				}
+			}
+		}
+		if f != nil {
+			f.Msg += "\nlog of the last step:\n  " + strings.Join(infos[len(infos)-1].Logs, "\n  ") + "\nhistory:\n" + describeBatches(h)
+			s.Close()
+			return f
+		}
+		s.Close()
+	}
+	st.Case(c, failedUpdates >= 3, "enumerated", fmt.Sprintf("failure-points=%d", min(len(points)/4*4, 20)))
+	st.Count("failure_points_enumerated", len(points))
+	st.Count("failure_points_that_failed_the_update", failedUpdates)
+	return nil
+}
+
+func init() { registerReplay("C12E", execC12Enum) }
+
+func TestC12Enumerate(t *testing.T) {
+	runPropertyAs(t, "C12", "C12E", genC12Enum, execC12Enum)
 }
